@@ -221,9 +221,18 @@ func (tds *Conn) ReadFrom() {
 		}
 
 		packet := &Packet{}
-		_, err := packet.ReadFrom(tds.ctx, tds.conn, time.Duration(tds.info.PacketReadTimeout)*time.Second)
+		n, err := packet.ReadFrom(tds.ctx, tds.conn, time.Duration(tds.info.PacketReadTimeout)*time.Second)
 		if err != nil && !errors.Is(err, io.EOF) {
 			if !tds.queueError(fmt.Errorf("error reading packet: %w", err)) {
+				return
+			}
+			if n > 0 && !errors.Is(err, ErrEOFAfterZeroRead) {
+				// Part of a packet was consumed: the position in the
+				// stream is lost and whatever follows cannot be told
+				// apart from a packet header. Do not read on, keep
+				// reporting the error until the connection is closed.
+				for tds.queueError(fmt.Errorf("error reading packet: connection unusable after: %w", err)) {
+				}
 				return
 			}
 			continue
